@@ -748,6 +748,8 @@ Proof.
   unfold generate_pmt. cbn [ms_pcr_pid ms_streams ms_pmt_version ms_pmt_updated ms_pat_version ms_pat_cc ms_pmt_cc ms_pm_updated set_tables].
   destruct (stream_pid_in (ms_pcr_pid s) (ms_streams s)) eqn:Epcr; cbn [negb].
   2:{ intros H; inversion H; subst; clear H. intros _. left. exists E_pcr_pid. rewrite restore_set_tables. repeat split; reflexivity. }
+  destruct (pmt_size (ms_streams s) >? 1021 - 9) eqn:Esize.
+  { intros H; inversion H; subst; clear H. intros _. left. exists E_generic. rewrite restore_set_tables. repeat split; reflexivity. }
   destruct (next_version (ms_pmt_version s) (ms_pmt_updated s)) as [pmtv mver] eqn:Emv.
   change (pmt_section (set_tables s patv (ms_pmt_version s) (wrappingCounter_inc_st (ms_pat_cc s)) (ms_pmt_cc s) false (ms_pmt_updated s)) mver)
     with (pmt_section s mver).
@@ -1618,4 +1620,758 @@ Proof.
   { apply run_pid_inv; try assumption; try lia; [apply new_muxer_inv|apply new_muxer_pid_inv]. }
   destruct (auto_add_spec _ _ _ _ _ Hinv Hpid ltac:(lia) ltac:(lia) Hz Hstep Hok) as (pid & H1 & _ & _ & H3 & H4 & H5 & H6).
   exists pid. unfold auto_pid_ok. repeat split; try assumption; lia.
+Qed.
+
+(* ---------------- table emissions ---------------- *)
+
+Lemma starts_with_tables_unit pid pkts : Forall (fun q => pkt_pid q = pid) pkts -> starts_with_tables pkts = false.
+Proof.
+  intros H. destruct pkts as [|a [|b r]]; try reflexivity.
+  inversion H as [|x xs Ha H']; subst x xs. inversion H' as [|y ys Hb _]; subst y ys.
+  unfold starts_with_tables, is_pat, is_pmt. rewrite Ha, Hb.
+  destruct (pid =? C_PIDPAT) eqn:E1; [|reflexivity]. apply Z.eqb_eq in E1. rewrite E1. reflexivity.
+Qed.
+
+(* what an emission is, for the state s it starts from (the retransmit counter aside) *)
+Definition emission (s s' : mstate) (pkts : list Packet) : Prop :=
+  exists ppay mpay rest,
+    pkts = table_packet C_PIDPAT (wrappingCounter_inc (ms_pat_cc s)) ppay ::
+           table_packet C_pmtStartPID (wrappingCounter_inc (ms_pmt_cc s)) mpay :: rest /\
+    write_psi_data (psi_of_section (pat_section (pat_ver s))) = Ok ppay /\
+    write_psi_data (psi_of_section (pmt_section s (pmt_ver s))) = Ok mpay /\
+    stream_pid_in (ms_pcr_pid s) (ms_streams s) = true /\
+    ms_pat_version s' = fst (next_version (ms_pat_version s) (ms_pm_updated s)) /\
+    ms_pmt_version s' = fst (next_version (ms_pmt_version s) (ms_pmt_updated s)) /\
+    ms_pm_updated s' = false /\ ms_pmt_updated s' = false /\
+    ms_streams s' = ms_streams s /\ ms_pcr_pid s' = ms_pcr_pid s.
+
+Definition no_emission (s s' : mstate) (o : mop) (p : part) : Prop :=
+  starts_with_tables (muxer_pkts o p) = false /\
+  ms_pat_version s' = ms_pat_version s /\ ms_pmt_version s' = ms_pmt_version s /\
+  ms_pm_updated s' = ms_pm_updated s /\ ms_pmt_updated s' = ms_pmt_updated s || content_change o p.
+
+Lemma tables_ok_emission s1 p : tables_ok s1 (tables_state s1) p -> emission s1 (tables_state s1) (pa_pkts p).
+Proof.
+  intros (ppay & mpay & bpat & bpmt & _ & Hp & _ & _ & _ & _ & H7 & H8 & H9 & _).
+  exists ppay, mpay, []. rewrite Hp. repeat split; assumption.
+Qed.
+
+(* WriteData on a known PID: the three outcomes with respect to the tables *)
+Lemma write_data_tables s d s' p ctx : ms_inv s -> write_data s d = (s', p) -> pa_res p <> Panic ->
+  af_entry_ok (MuxerData_AdaptationField d) -> es_find (MuxerData_PID d) (ms_es s) = Some ctx ->
+  let due := data_forced s d || (ms_period s <=? ms_retransmit s + 1) in
+  ms_period s' = ms_period s /\
+  ((due = false /\ no_emission s s' (MWriteData d) p /\ ms_retransmit s' = ms_retransmit s + 1) \/
+   (due = true /\ (exists c, pa_res p = Err c) /\ pa_pkts p = [] /\ no_emission s s' (MWriteData d) p /\
+    ms_retransmit s' = ms_retransmit s + 1) \/
+   (due = true /\ emission s s' (pa_pkts p) /\ ms_retransmit s' = 0)).
+Proof.
+  intros Hinv Hstep Hnp Hen Hfind due.
+  destruct (write_data_spec _ _ _ _ Hstep Hnp Hen (inv_es_wf _ Hinv _)) as [(Hnone & _)|(ctx' & sr & pt & _ & Hrt & Hnpt & Hcases)];
+    [congruence|].
+  assert (Hdue : due = negb (negb (data_forced s d) && (ms_retransmit s + 1 <? ms_period s))).
+  { subst due. destruct (data_forced s d); cbn [negb andb orb]; [reflexivity|]. lia. }
+  destruct (retransmit_spec _ _ _ _ Hrt Hnpt) as [(Hd & Hsr & Hpt)|[(Hd & c & Hc & Hsr & Hp0 & _)|(Hd & Hok & Hsr)]];
+    cbn zeta in Hd; rewrite <- Hdue in Hd.
+  - (* not due *)
+    destruct Hcases as [(c & Hc & _)|(_ & k & up & ug & un & Hpk & _ & _ & Hall & _ & Hsame & _)]; [subst pt; cbn in Hc; discriminate|].
+    destruct Hsame as (S1 & S2 & S3 & S4 & S5 & S6 & S7 & S8 & S9 & S10 & S11). subst sr pt. cbn [pa_pkts app] in Hpk.
+    split; [exact S1|]. left. split; [exact Hd|]. split; [|exact S11].
+    unfold no_emission. cbn [muxer_pkts content_change]. rewrite Hpk, orb_false_r. repeat split; try assumption.
+    eapply starts_with_tables_unit; eauto.
+  - (* due, tables cannot be generated *)
+    destruct Hcases as [(c' & _ & -> & ->)|(Hokpt & _)]; [|rewrite Hc in Hokpt; discriminate].
+    subst sr. split; [reflexivity|]. right; left. split; [exact Hd|]. split; [exists c; exact Hc|]. split; [exact Hp0|].
+    split; [|reflexivity]. unfold no_emission. cbn [muxer_pkts content_change]. rewrite Hp0, orb_false_r. repeat split; reflexivity.
+  - (* due, tables emitted *)
+    destruct Hcases as [(c & Hc & _)|(_ & k & up & ug & un & Hpk & _ & _ & Hall & _ & Hsame & _)].
+    { destruct Hok as (? & ? & ? & ? & Hr & _). rewrite Hr in Hc. discriminate. }
+    destruct Hsame as (S1 & S2 & S3 & S4 & S5 & S6 & S7 & S8 & S9 & S10 & S11). subst sr.
+    split; [exact S1|]. right; right. split; [exact Hd|]. split; [|exact S11].
+    destruct (tables_ok_emission _ _ Hok) as (ppay & mpay & rest & Hp & E1 & E2 & E3 & _).
+    exists ppay, mpay, (rest ++ up). rewrite Hpk, Hp. cbn [app]. repeat split; try assumption.
+Qed.
+
+Lemma table_packet_pids a b pp mp rest :
+  starts_with_tables (table_packet C_PIDPAT a pp :: table_packet C_pmtStartPID b mp :: rest) = true.
+Proof. reflexivity. Qed.
+
+(* every call: either an emission (WriteTables, or WriteData when due) or none *)
+Lemma step_emission s o s' p : ms_inv s -> mux_step_part s o = (s', p) -> pa_res p <> Panic -> op_entry_ok o ->
+  ms_period s' = ms_period s /\
+  ((emission s s' (muxer_pkts o p) /\ content_change o p = false /\
+    match o with MWriteData _ => ms_retransmit s' = 0 | _ => ms_retransmit s' = ms_retransmit s end) \/
+   (no_emission s s' o p /\
+    match o with
+    | MWriteData d => match es_find (MuxerData_PID d) (ms_es s) with
+                      | Some _ => ms_retransmit s' = ms_retransmit s + 1 /\
+                                  ((data_forced s d || (ms_period s <=? ms_retransmit s + 1)) = true -> pa_pkts p = [])
+                      | None => s' = s /\ pa_pkts p = []
+                      end
+    | _ => ms_retransmit s' = ms_retransmit s /\ muxer_pkts o p = []
+    end)).
+Proof.
+  intros Hinv Hstep Hnp Hen.
+  destruct o as [es|q|q| |d|pk]; cbn [mux_step_part] in Hstep.
+  - split; [|right].
+    + unfold add_es in Hstep. destruct (negb _); [destruct (stream_pid_in _ _)|destruct (next_free_pid _ _ _)]; pinj Hstep; reflexivity.
+    + unfold add_es in Hstep. unfold no_emission. cbn [muxer_pkts content_change].
+      destruct (negb _); [destruct (stream_pid_in _ _)|destruct (next_free_pid _ _ _)]; pinj Hstep;
+        cbn [part_of_res pa_pkts pa_res is_ok set_streams_es ms_pat_version ms_pmt_version ms_pm_updated ms_pmt_updated ms_retransmit starts_with_tables];
+        rewrite ?orb_false_r, ?orb_true_r; repeat split; reflexivity.
+  - split; [|right].
+    + unfold remove_es in Hstep. destruct (stream_pid_in _ _); pinj Hstep; reflexivity.
+    + unfold remove_es in Hstep. unfold no_emission. cbn [muxer_pkts content_change].
+      destruct (stream_pid_in _ _); pinj Hstep;
+        cbn [part_of_res pa_pkts pa_res is_ok set_streams_es ms_pat_version ms_pmt_version ms_pm_updated ms_pmt_updated ms_retransmit starts_with_tables];
+        rewrite ?orb_false_r, ?orb_true_r; repeat split; reflexivity.
+  - pinj Hstep. split; [reflexivity|right]. unfold no_emission. cbn. rewrite orb_true_r. repeat split; reflexivity.
+  - destruct (write_tables_spec _ _ _ Hstep Hnp) as [(c & _ & -> & Hp & _)|Hok].
+    + split; [reflexivity|right]. unfold no_emission. cbn [muxer_pkts content_change]. rewrite Hp, orb_false_r. repeat split; reflexivity.
+    + assert (Hs : s' = tables_state s) by (destruct Hok as (? & ? & ? & ? & _ & _ & _ & _ & _ & _ & _ & _ & _ & Hs); exact Hs).
+      subst s'. split; [reflexivity|left]. split; [apply tables_ok_emission, Hok|]. split; reflexivity.
+  - destruct (es_find (MuxerData_PID d) (ms_es s)) as [ctx|] eqn:Ef.
+    + destruct (write_data_tables _ _ _ _ ctx Hinv Hstep Hnp Hen Ef) as (Hper & [(Hd & Hne & Hr)|[(Hd & _ & Hp0 & Hne & Hr)|(Hd & Hem & Hr)]]).
+      * split; [exact Hper|right]. split; [exact Hne|]. split; [exact Hr|]. intros Hd'. rewrite Hd' in Hd. discriminate.
+      * split; [exact Hper|right]. split; [exact Hne|]. split; [exact Hr|]. intros _. exact Hp0.
+      * split; [exact Hper|left]. repeat split; assumption.
+    + unfold write_data in Hstep. rewrite Ef in Hstep. pinj Hstep. split; [reflexivity|right].
+      unfold no_emission. cbn. rewrite orb_false_r. repeat split; reflexivity.
+  - pinj Hstep. split; [reflexivity|right]. unfold no_emission. cbn. rewrite orb_false_r. repeat split; reflexivity.
+Qed.
+
+(* ---------------- C17 over runs ---------------- *)
+
+Lemma next_version_snd v u : snd (next_version v u) = wrappingCounter_value (fst (next_version v u)).
+Proof. unfold next_version. destruct u; cbn [fst snd]; [apply inc_is_value|reflexivity]. Qed.
+
+Lemma step_starts_with_tables s o s' p : ms_inv s -> mux_step_part s o = (s', p) -> pa_res p <> Panic -> op_entry_ok o ->
+  starts_with_tables (muxer_pkts o p) = true -> emission s s' (muxer_pkts o p).
+Proof.
+  intros Hinv Hstep Hnp Hen Hst.
+  destruct (step_emission _ _ _ _ Hinv Hstep Hnp Hen) as (_ & [(Hem & _)|((Hno & _) & _)]); [exact Hem|congruence].
+Qed.
+
+(* C17_content *)
+Theorem emission_content period ops o s' p :
+  let s := fst (mux_run_parts (new_muxer period) ops) in
+  no_panic (snd (mux_run_parts (new_muxer period) ops)) -> Forall op_entry_ok ops -> op_entry_ok o ->
+  mux_step_part s o = (s', p) -> pa_res p <> Panic -> starts_with_tables (muxer_pkts o p) = true ->
+  exists ppay mpay rest,
+    muxer_pkts o p = table_packet C_PIDPAT (wrappingCounter_inc (ms_pat_cc s)) ppay ::
+                     table_packet C_pmtStartPID (wrappingCounter_inc (ms_pmt_cc s)) mpay :: rest /\
+    write_psi_data (psi_of_section (pat_section (wrappingCounter_value (ms_pat_version s')))) = Ok ppay /\
+    write_psi_data (pmt_psi (ms_streams s) (ms_pcr_pid s) (wrappingCounter_value (ms_pmt_version s'))) = Ok mpay /\
+    stream_pid_in (ms_pcr_pid s) (ms_streams s) = true.
+Proof.
+  intros s Hnp Hen Ho Hstep Hp Hst.
+  assert (Hinv : ms_inv s) by (apply run_inv; [apply new_muxer_inv|assumption|assumption]).
+  destruct (step_starts_with_tables _ _ _ _ Hinv Hstep Hp Ho Hst) as (ppay & mpay & rest & H1 & H2 & H3 & H4 & H5 & H6 & _).
+  exists ppay, mpay, rest. rewrite H5, H6, <- !next_version_snd. repeat split; assumption.
+Qed.
+
+(* C17_period: WriteData on an added PID *)
+Theorem period_rule period ops d s' p :
+  let s := fst (mux_run_parts (new_muxer period) ops) in
+  no_panic (snd (mux_run_parts (new_muxer period) ops)) -> Forall op_entry_ok ops -> op_entry_ok (MWriteData d) ->
+  mux_step_part s (MWriteData d) = (s', p) -> pa_res p <> Panic -> es_mem (MuxerData_PID d) (ms_es s) = true ->
+  let due := data_forced s d || (ms_period s <=? ms_retransmit s + 1) in
+  ms_period s' = ms_period s /\
+  (due = false -> starts_with_tables (pa_pkts p) = false /\ ms_retransmit s' = ms_retransmit s + 1) /\
+  (due = true -> (starts_with_tables (pa_pkts p) = true /\ ms_retransmit s' = 0) \/
+                 ((exists c, pa_res p = Err c) /\ pa_pkts p = [] /\ ms_retransmit s' = ms_retransmit s + 1)).
+Proof.
+  intros s Hnp Hen Ho Hstep Hp Hmem due.
+  assert (Hinv : ms_inv s) by (apply run_inv; [apply new_muxer_inv|assumption|assumption]).
+  rewrite es_mem_find in Hmem. destruct (es_find (MuxerData_PID d) (ms_es s)) as [ctx|] eqn:Ef; [|discriminate].
+  cbn [mux_step_part] in Hstep. cbn [op_entry_ok] in Ho.
+  destruct (write_data_tables _ _ _ _ ctx Hinv Hstep Hp Ho Ef) as (Hper & [(Hd & Hne & Hr)|[(Hd & Hc & Hp0 & Hne & Hr)|(Hd & Hem & Hr)]]);
+    fold due in Hd; split; try exact Hper; rewrite Hd; split; intros Hx; try discriminate.
+  - destruct Hne as (Hst & _). cbn [muxer_pkts] in Hst. split; assumption.
+  - right. repeat split; assumption.
+  - left. destruct Hem as (ppay & mpay & rest & -> & _). split; [reflexivity|exact Hr].
+Qed.
+
+(* ... and no other call touches the retransmit counter or the period *)
+Theorem period_counter period ops o s' p :
+  let s := fst (mux_run_parts (new_muxer period) ops) in
+  no_panic (snd (mux_run_parts (new_muxer period) ops)) -> Forall op_entry_ok ops -> op_entry_ok o ->
+  mux_step_part s o = (s', p) -> pa_res p <> Panic ->
+  ms_period s' = ms_period s /\
+  match o with
+  | MWriteData d => es_mem (MuxerData_PID d) (ms_es s) = false -> ms_retransmit s' = ms_retransmit s
+  | _ => ms_retransmit s' = ms_retransmit s
+  end.
+Proof.
+  intros s Hnp Hen Ho Hstep Hp.
+  assert (Hinv : ms_inv s) by (apply run_inv; [apply new_muxer_inv|assumption|assumption]).
+  destruct (step_emission _ _ _ _ Hinv Hstep Hp Ho) as (Hper & Hcases). split; [exact Hper|].
+  destruct o as [es|q|q| |d|pk]; try (destruct Hcases as [(_ & _ & H)|(_ & H & _)]; exact H).
+  intros Hmem. rewrite es_mem_find in Hmem. destruct (es_find (MuxerData_PID d) (ms_es s)) eqn:Ef; [discriminate|].
+  cbn [mux_step_part] in Hstep. unfold write_data in Hstep. rewrite Ef in Hstep. pinj Hstep. reflexivity.
+Qed.
+
+(* C17_first *)
+Lemma tables_first_run : forall ops s, ms_inv s -> ms_period s <= ms_retransmit s ->
+  no_panic (snd (mux_run_parts s ops)) -> Forall op_entry_ok ops ->
+  tables_first (combine ops (snd (mux_run_parts s ops))).
+Proof.
+  induction ops as [|o r IH]; intros s Hinv Hret Hnp Hen; [exact I|].
+  rewrite mux_run_parts_cons in *. cbn [fst snd combine tables_first] in *.
+  inversion Hnp as [|x xs Hp Hnp']; subst. inversion Hen as [|y ys Ho Hen']; subst.
+  destruct (mux_step_part s o) as [s1 p] eqn:E. cbn [fst snd] in *.
+  pose proof (step_inv _ _ _ _ Hinv E Hp Ho) as Hinv1.
+  destruct (step_emission _ _ _ _ Hinv E Hp Ho) as (Hper & [(Hem & _)|(Hne & Hrest)]).
+  - destruct Hem as (ppay & mpay & rest & -> & _). reflexivity.
+  - assert (Hnil : muxer_pkts o p = [] /\ ms_period s1 <= ms_retransmit s1).
+    { destruct o as [es|q|q| |d|pk]; try (destruct Hrest as [Hr Hn]; split; [exact Hn|lia]).
+      cbn [muxer_pkts]. destruct (es_find (MuxerData_PID d) (ms_es s)).
+      - destruct Hrest as [Hr Hn]. split; [|lia]. apply Hn. apply orb_true_iff. right. lia.
+      - destruct Hrest as [-> Hn]. split; [exact Hn|lia]. }
+    destruct Hnil as [-> Hret1]. apply IH; assumption.
+Qed.
+
+Theorem tables_first_thm period ops :
+  no_panic (snd (mux_run_parts (new_muxer period) ops)) -> Forall op_entry_ok ops ->
+  tables_first (combine ops (snd (mux_run_parts (new_muxer period) ops))).
+Proof. intros Hnp Hen. apply tables_first_run; try assumption; [apply new_muxer_inv|cbn; lia]. Qed.
+
+(* C17_version *)
+Definition ver_wf (c : wrappingCounter) : Prop := wrappingCounter_wrapAt c = 31 /\ 0 <= wrappingCounter_value c <= 32.
+
+Lemma ver_next v u : ver_wf v -> ver_wf (fst (next_version v u)) /\
+  (wrappingCounter_value v <= 31 ->
+   wrappingCounter_value (fst (next_version v u)) = if u then (wrappingCounter_value v + 1) mod 32 else wrappingCounter_value v) /\
+  (u = true -> wrappingCounter_value (fst (next_version v u)) <= 31).
+Proof.
+  intros [Hw Hv]. unfold next_version. destruct u; cbn [fst]; [|split; [split; assumption|split; [reflexivity|discriminate]]].
+  unfold wrappingCounter_inc_st, ver_wf. cbn. rewrite Hw.
+  destruct (wrappingCounter_value v + 1 >? 31) eqn:E; cbn; rewrite ?Hw.
+  - repeat split; try lia. intros H. assert (wrappingCounter_value v = 31) as -> by lia. reflexivity.
+  - repeat split; try lia. intros H. rewrite Z.mod_small; lia.
+Qed.
+
+Definition ver_inv (s : mstate) : Prop := ver_wf (ms_pat_version s) /\ ver_wf (ms_pmt_version s).
+
+Lemma step_ver_inv s o s' p : ms_inv s -> ver_inv s -> mux_step_part s o = (s', p) -> pa_res p <> Panic -> op_entry_ok o -> ver_inv s'.
+Proof.
+  intros Hinv [H1 H2] Hstep Hnp Hen.
+  destruct (step_emission _ _ _ _ Hinv Hstep Hnp Hen) as (_ & [(Hem & _)|((_ & E1 & E2 & _) & _)]).
+  - destruct Hem as (? & ? & ? & _ & _ & _ & _ & E1 & E2 & _). split; [rewrite E1|rewrite E2]; apply ver_next; assumption.
+  - split; [rewrite E1|rewrite E2]; assumption.
+Qed.
+
+(* once tables have been emitted: PAT version fixed, PMT version = last emitted, flags = "content changed since" *)
+Lemma emissions_rule : forall ops s ch c0 lastpat lastpmt, ms_inv s -> ver_inv s ->
+  ms_pm_updated s = false -> ms_pmt_updated s = ch ->
+  wrappingCounter_value (ms_pat_version s) = lastpat -> wrappingCounter_value (ms_pmt_version s) = lastpmt -> lastpmt <= 31 ->
+  no_panic (snd (mux_run_parts s ops)) -> Forall op_entry_ok ops ->
+  version_rule ((c0, lastpat, lastpmt) :: emissions s ops ch).
+Proof.
+  induction ops as [|o r IH]; intros s ch c0 lastpat lastpmt Hinv Hver Hpm Hpmt Hpat Hpv Hle Hnp Hen; [exact I|].
+  rewrite mux_run_parts_cons in Hnp. cbn [snd] in Hnp. cbn [emissions].
+  inversion Hnp as [|x xs Hp Hnp']; subst x xs. inversion Hen as [|y ys Ho Hen']; subst y ys.
+  destruct (mux_step_part s o) as [s1 p] eqn:E. cbn [fst snd] in *.
+  pose proof (step_inv _ _ _ _ Hinv E Hp Ho) as Hinv1. pose proof (step_ver_inv _ _ _ _ Hinv Hver E Hp Ho) as Hver1.
+  destruct Hver as [Hv1 Hv2].
+  destruct (step_emission _ _ _ _ Hinv E Hp Ho) as (_ & [(Hem & Hcc & _)|((Hst & E1 & E2 & E3 & E4) & _)]).
+  - destruct Hem as (ppay & mpay & rest & Hpk & _ & _ & _ & E1 & E2 & E3 & E4 & _).
+    rewrite Hpk, table_packet_pids, Hcc, orb_false_r. cbn [version_rule].
+    destruct (ver_next (ms_pmt_version s) (ms_pmt_updated s) Hv2) as (_ & Hnv & Hnle).
+    rewrite E1, E2, Hpm, Hpmt. cbn [next_version fst]. split; [exact Hpat|]. split.
+    + rewrite Hpmt in Hnv. rewrite Hnv by lia. rewrite Hpv. reflexivity.
+    + apply IH; try assumption; try reflexivity.
+      * rewrite E1, Hpm. reflexivity.
+      * rewrite E2, Hpmt. reflexivity.
+      * rewrite Hpmt in Hnle. destruct ch; [apply Hnle; reflexivity|]. cbn [next_version fst]. lia.
+  - rewrite Hst. apply IH; try assumption; try congruence.
+Qed.
+
+(* before the first emission: the PMT version is still the initial 32 only while the flag is set or no stream exists *)
+Definition ver_fresh (s : mstate) : Prop :=
+  ms_pmt_updated s = true \/ wrappingCounter_value (ms_pmt_version s) <= 31 \/ ms_streams s = [].
+
+Lemma step_streams s o s' p : mux_step_part s o = (s', p) -> pa_res p <> Panic ->
+  ms_streams s' = ms_streams s \/ ms_pmt_updated s' = true.
+Proof.
+  intros Hstep Hnp. destruct o as [es|q|q| |d|pk]; cbn [mux_step_part] in Hstep.
+  - unfold add_es in Hstep. destruct (negb _); [destruct (stream_pid_in _ _)|destruct (next_free_pid _ _ _)]; pinj Hstep;
+      first [left; reflexivity|right; reflexivity].
+  - unfold remove_es in Hstep. destruct (stream_pid_in _ _); pinj Hstep; first [left; reflexivity|right; reflexivity].
+  - pinj Hstep. left; reflexivity.
+  - left. destruct (write_tables_spec _ _ _ Hstep Hnp) as [(c & _ & -> & _)|(? & ? & ? & ? & _ & _ & _ & _ & _ & _ & _ & _ & _ & ->)]; reflexivity.
+  - left. apply (write_data_frame _ _ _ _ Hstep Hnp).
+  - pinj Hstep. left; reflexivity.
+Qed.
+
+Lemma emission_version_le s s' pkts : ver_fresh s -> ver_wf (ms_pmt_version s) -> emission s s' pkts ->
+  wrappingCounter_value (ms_pmt_version s') <= 31.
+Proof.
+  intros Hf Hv (ppay & mpay & rest & _ & _ & _ & Hpcr & _ & E2 & _).
+  destruct (ver_next (ms_pmt_version s) (ms_pmt_updated s) Hv) as (_ & Hnv & Hnle). rewrite E2.
+  destruct (ms_pmt_updated s) eqn:Eu; [apply Hnle; reflexivity|].
+  cbn [next_version fst]. destruct Hf as [Hf|[Hf|Hf]]; [congruence|exact Hf|]. rewrite Hf in Hpcr. discriminate Hpcr.
+Qed.
+
+Lemma step_ver_fresh s o s' p : ms_inv s -> ver_inv s -> ver_fresh s -> mux_step_part s o = (s', p) -> pa_res p <> Panic ->
+  op_entry_ok o -> ver_fresh s'.
+Proof.
+  intros Hinv [_ Hv] Hf Hstep Hnp Hen.
+  destruct (step_emission _ _ _ _ Hinv Hstep Hnp Hen) as (_ & [(Hem & _)|((_ & _ & E2 & _ & E4) & _)]).
+  - right; left. eapply emission_version_le; eauto.
+  - destruct (step_streams _ _ _ _ Hstep Hnp) as [Hs|Hs]; [|left; exact Hs].
+    destruct Hf as [Hf|[Hf|Hf]].
+    + left. rewrite E4, Hf. reflexivity.
+    + right; left. rewrite E2. exact Hf.
+    + right; right. rewrite Hs. exact Hf.
+Qed.
+
+Lemma emissions_rule0 : forall ops s ch, ms_inv s -> ver_inv s -> ver_fresh s ->
+  no_panic (snd (mux_run_parts s ops)) -> Forall op_entry_ok ops -> version_rule (emissions s ops ch).
+Proof.
+  induction ops as [|o r IH]; intros s ch Hinv Hver Hfr Hnp Hen; [exact I|].
+  rewrite mux_run_parts_cons in Hnp. cbn [snd] in Hnp. cbn [emissions].
+  inversion Hnp as [|x xs Hp Hnp']; subst x xs. inversion Hen as [|y ys Ho Hen']; subst y ys.
+  destruct (mux_step_part s o) as [s1 p] eqn:E. cbn [fst snd] in *.
+  pose proof (step_inv _ _ _ _ Hinv E Hp Ho) as Hinv1. pose proof (step_ver_inv _ _ _ _ Hinv Hver E Hp Ho) as Hver1.
+  pose proof (step_ver_fresh _ _ _ _ Hinv Hver Hfr E Hp Ho) as Hfr1.
+  destruct (step_emission _ _ _ _ Hinv E Hp Ho) as (_ & [(Hem & Hcc & _)|((Hst & _) & _)]).
+  - pose proof (emission_version_le _ _ _ Hfr (proj2 Hver) Hem) as Hle.
+    destruct Hem as (ppay & mpay & rest & Hpk & _ & _ & _ & E1 & E2 & E3 & E4 & _).
+    rewrite Hpk, table_packet_pids. apply emissions_rule; try assumption; reflexivity.
+  - rewrite Hst. apply IH; assumption.
+Qed.
+
+Theorem version_rule_thm period ops :
+  no_panic (snd (mux_run_parts (new_muxer period) ops)) -> Forall op_entry_ok ops ->
+  version_rule (emissions (new_muxer period) ops false).
+Proof.
+  intros Hnp Hen. apply emissions_rule0; try assumption.
+  - apply new_muxer_inv.
+  - split; cbn; unfold ver_wf, version_wrap; cbn; lia.
+  - right; right. reflexivity.
+Qed.
+
+(* ================= Part 5: C04 ================= *)
+
+(* ---------------- splitting the bytes of an item list at a byte boundary ---------------- *)
+
+Lemma run_item_prefix cache c it :
+  run_item (cache, c) it = (fst (run_item (cache, []) it), c ++ snd (run_item (cache, []) it)).
+Proof.
+  destruct it as [w v|b|bs]; cbn [run_item fst snd]; try (unfold push_bits; cbn [fst snd app]; reflexivity).
+  destruct cache as [|c0 cache].
+  - destruct bs; cbn [fst snd app]; [rewrite app_nil_r|]; reflexivity.
+  - unfold push_bits; cbn [fst snd app]; reflexivity.
+Qed.
+
+Lemma run_items_prefix l : forall cache c,
+  run_items l (cache, c) = (fst (run_items l (cache, [])), c ++ snd (run_items l (cache, []))).
+Proof.
+  induction l as [|it l IH]; intros cache c; unfold run_items in *; cbn [fold_left].
+  - cbn [fst snd]. rewrite app_nil_r. reflexivity.
+  - rewrite (run_item_prefix cache c it). destruct (run_item (cache, []) it) as [cache' new] eqn:E. cbn [fst snd].
+    rewrite (IH cache' (c ++ new)), (IH cache' new). cbn [fst snd]. rewrite app_assoc. reflexivity.
+Qed.
+
+Lemma bytes_of_items_app a b n : ibz a = 8 * n -> bytes_of_items (a ++ b) = bytes_of_items a ++ bytes_of_items b.
+Proof.
+  intros H. unfold bytes_of_items, chunks_of, run_items. rewrite fold_left_app. fold (run_items a ([], [])).
+  pose proof (run_items_total a ([], [])) as T. pose proof (run_items_cache a ([], []) ltac:(simpl; lia)) as C.
+  change (st_total ([], [])) with 0%nat in T. unfold st_total in T. unfold ibz in H.
+  destruct (run_items a ([], [])) as [ca cha] eqn:E. cbn [fst snd] in *.
+  assert (Hca : ca = []) by (apply length_zero_iff_nil; lia). subst ca.
+  fold (run_items b ([], cha)). rewrite (run_items_prefix b [] cha). cbn [snd]. rewrite concat_app. reflexivity.
+Qed.
+
+(* ---------------- whole packets ---------------- *)
+
+Definition group_ok (g : list (list Z)) : Prop :=
+  Z.of_nat (length (concat g)) = C_MpegTsPacketSize /\ nth 0 (concat g) 0 = syncByte.
+
+Definition part_wf (p : part) : Prop :=
+  pa_n p = C_MpegTsPacketSize * Z.of_nat (length (pa_groups p)) /\ Forall group_ok (pa_groups p).
+
+Lemma enc_packet_group p its : enc_packet p C_MpegTsPacketSize = Ok its -> group_ok (chunks_of its).
+Proof.
+  intros H. unfold group_ok. change (concat (chunks_of its)) with (bytes_of_items its). split.
+  - eapply enc_packet_size; eauto.
+  - destruct (enc_packet_sync _ _ _ H) as [rest ->].
+    change (wu8 syncByte :: rest) with ([wu8 syncByte] ++ rest). rewrite (bytes_of_items_app _ _ 1) by reflexivity. reflexivity.
+Qed.
+
+Lemma write_packet_group p bs : write_packet p C_MpegTsPacketSize = Ok bs -> group_ok [bs].
+Proof.
+  unfold write_packet. destruct (enc_packet p C_MpegTsPacketSize) as [its|c|] eqn:E; cbn [res_map]; try discriminate.
+  intros H. apply ok_inj in H. subst bs. pose proof (enc_packet_group _ _ E) as G. unfold group_ok in *.
+  cbn [concat]. rewrite app_nil_r. exact G.
+Qed.
+
+Lemma part_wf_nil r : part_wf (mk_part r 0 [] []).
+Proof. split; [reflexivity|constructor]. Qed.
+
+Lemma part_wf_app a b : part_wf a -> part_wf b -> part_wf (part_app a b).
+Proof.
+  intros [Ha1 Ha2] [Hb1 Hb2]. split; cbn [part_app pa_n pa_groups].
+  - rewrite app_length, Ha1, Hb1. lia.
+  - apply Forall_app. split; assumption.
+Qed.
+
+Lemma emit_packet_wf p : match po_res (emit_packet p) with
+                         | Ok n => n = C_MpegTsPacketSize /\ group_ok (po_group (emit_packet p))
+                         | _ => po_group (emit_packet p) = []
+                         end.
+Proof.
+  unfold emit_packet. destruct (enc_packet p C_MpegTsPacketSize) as [its|c|] eqn:E; cbn [po_res po_group]; try reflexivity.
+  split; [reflexivity|]. eapply enc_packet_group; eauto.
+Qed.
+
+Lemma write_tables_wf s : part_wf (snd (write_tables s)).
+Proof.
+  unfold write_tables, generate_pat, generate_pmt.
+  destruct (next_version (ms_pat_version s) (ms_pm_updated s)) as [patv pver].
+  destruct (write_psi_data (psi_of_section (pat_section pver))) as [ppay|c|]; cbn [snd]; try apply part_wf_nil.
+  destruct (write_packet _ _) as [bpat|c|] eqn:Ewp; cbn [snd]; try apply part_wf_nil.
+  destruct (negb _); cbn [snd]; try apply part_wf_nil.
+  destruct (_ >? _); cbn [snd]; try apply part_wf_nil.
+  destruct (next_version _ _) as [pmtv mver].
+  destruct (write_psi_data _) as [mpay|c|]; cbn [snd]; try apply part_wf_nil.
+  destruct (write_packet (table_packet C_pmtStartPID _ _) _) as [bpmt|c|] eqn:Ewm; cbn [snd]; try apply part_wf_nil.
+  pose proof (write_packet_group _ _ Ewp) as G1. pose proof (write_packet_group _ _ Ewm) as G2.
+  split; cbn [pa_n pa_groups].
+  - destruct G1 as [G1 _], G2 as [G2 _]. cbn [concat] in G1, G2. rewrite app_nil_r in G1, G2. unfold blen. cbn [length]. lia.
+  - constructor; [exact G1|constructor; [exact G2|constructor]].
+Qed.
+
+Lemma retransmit_wf s f : part_wf (snd (retransmit_tables s f)).
+Proof.
+  unfold retransmit_tables. destruct (negb f && _); cbn [snd]; [apply part_wf_nil|].
+  pose proof (write_tables_wf (set_retransmit s (ms_retransmit s + 1))) as W.
+  destruct (write_tables _) as [s2 pt]. cbn [snd] in *. destruct pt as [rt nt gt pkt]. destruct rt; cbn [snd]; exact W.
+Qed.
+
+Lemma wd_loop_wf fuel : forall pid h cc af ps left, part_wf (lo_part (wd_loop fuel pid h cc af ps left)).
+Proof.
+  induction fuel as [|fuel IH]; intros pid h cc af ps left; cbn [wd_loop].
+  - destruct left; apply part_wf_nil.
+  - destruct left as [|b0 left']; [apply part_wf_nil|].
+    destruct (ps && _).
+    + match goal with |- context [emit_packet ?p] => pose proof (emit_packet_wf p) as W; destruct (po_res (emit_packet p)) end;
+        try apply part_wf_nil.
+      destruct W as [-> G]. cbn [lo_cons lo_part]. destruct (IH pid h cc None ps (b0 :: left')) as [I1 I2].
+      split; cbn [pa_n pa_groups length]; [lia|constructor; assumption].
+    + destruct (write_pes_data _ _ _ _) as [[[items ntot] npayload]|c|]; try apply part_wf_nil.
+      match goal with |- context [emit_packet ?p] => pose proof (emit_packet_wf p) as W; destruct (po_res (emit_packet p)) end;
+        try apply part_wf_nil.
+      destruct W as [-> G]. cbn [lo_cons lo_part].
+      destruct (IH pid h (wrappingCounter_inc_st cc) None false (skipn (Z.to_nat npayload) (b0 :: left'))) as [I1 I2].
+      split; cbn [pa_n pa_groups length]; [lia|constructor; assumption].
+Qed.
+
+Lemma write_data_wf s d : part_wf (snd (write_data s d)).
+Proof.
+  unfold write_data. destruct (es_find _ _) as [ctx|]; cbn [snd]; [|apply part_wf_nil].
+  pose proof (retransmit_wf s (af_rai (MuxerData_AdaptationField d) && (MuxerData_PID d =? ms_pcr_pid s))) as W.
+  destruct (retransmit_tables _ _) as [s1 pt]. cbn [snd] in W. destruct pt as [rt nt gt pkt]. destruct rt as [u|c|]; cbn [snd]; try exact W.
+  destruct u.
+  destruct (MuxerData_PES d) as [pes|]; cbn [snd]; [|apply part_wf_app; [exact W|apply part_wf_nil]].
+  destruct (PESData_Data pes) as [|b0 data']; cbn [snd]; [exact W|].
+  destruct (PESData_Header pes) as [h0|]; cbn [snd]; [|apply part_wf_app; [exact W|apply part_wf_nil]].
+  apply part_wf_app; [exact W|apply wd_loop_wf].
+Qed.
+
+(* every call: the bytes it hands to the writer are whole packets, counted exactly *)
+Lemma step_part_wf s o : part_wf (snd (mux_step_part s o)).
+Proof.
+  destruct o as [es|q|q| |d|pk]; cbn [mux_step_part].
+  - destruct (add_es s es). apply part_wf_nil.
+  - destruct (remove_es s q). apply part_wf_nil.
+  - apply part_wf_nil.
+  - apply write_tables_wf.
+  - apply write_data_wf.
+  - cbn [snd]. unfold write_packet_op. pose proof (emit_packet_wf pk) as W. destruct (po_res (emit_packet pk)); try apply part_wf_nil.
+    destruct W as [-> G]. split; cbn [pa_n pa_groups length]; [lia|constructor; [exact G|constructor]].
+Qed.
+
+Lemma concat_groups_length (gs : list (list (list Z))) : Forall group_ok gs ->
+  Z.of_nat (length (concat (concat gs))) = C_MpegTsPacketSize * Z.of_nat (length gs).
+Proof.
+  induction 1 as [|g gs [Hg _] _ IH]; [reflexivity|]. cbn [concat length]. rewrite concat_app, app_length. lia.
+Qed.
+
+(* the k-th 188-byte block of a sequence of whole packets starts with the sync byte *)
+Lemma blocks_sync (gs : list (list (list Z))) : Forall group_ok gs -> forall k, (k < length gs)%nat ->
+  nth (188 * k) (concat (concat gs)) 0 = syncByte.
+Proof.
+  induction 1 as [|g gs [Hg Hs] _ IH]; intros k Hk; [cbn in Hk; lia|].
+  cbn [concat]. rewrite concat_app. unfold C_MpegTsPacketSize in Hg. destruct k as [|k].
+  - rewrite Nat.mul_0_r, app_nth1 by lia. exact Hs.
+  - rewrite app_nth2 by lia. replace (188 * S k - length (concat g))%nat with (188 * k)%nat by lia.
+    apply IH. cbn [length] in Hk. lia.
+Qed.
+
+Lemma mux_run_parts_out ops : forall s,
+  fst (mux_run s ops) = fst (mux_run_parts s ops) /\ snd (mux_run s ops) = map mout_of_part (snd (mux_run_parts s ops)).
+Proof.
+  induction ops as [|o r IH]; intros s; [split; reflexivity|].
+  cbn [mux_run mux_run_parts]. unfold mux_step. destruct (mux_step_part s o) as [s1 p].
+  destruct (IH s1) as [I1 I2]. destruct (mux_run s1 r) as [s2 outs]. destruct (mux_run_parts s1 r) as [s2' ps]. cbn [fst snd] in *.
+  subst. split; reflexivity.
+Qed.
+
+Lemma run_parts_wf ops : forall s, Forall part_wf (snd (mux_run_parts s ops)).
+Proof.
+  induction ops as [|o r IH]; intros s; [constructor|].
+  rewrite mux_run_parts_cons. cbn [snd]. constructor; [apply step_part_wf|apply IH].
+Qed.
+
+(* C04_aligned *)
+Theorem aligned s ops : Forall (fun o => Z.of_nat (length (mout_bytes o)) = mo_n o /\ (C_MpegTsPacketSize | mo_n o) /\
+                                        Forall group_ok (mo_groups o)) (snd (mux_run s ops)).
+Proof.
+  destruct (mux_run_parts_out ops s) as [_ ->]. apply Forall_map.
+  eapply Forall_impl; [|apply run_parts_wf]. intros p [H1 H2]. cbn [mout_of_part mo_n mo_groups mout_bytes].
+  change (mout_bytes (mout_of_part p)) with (concat (concat (pa_groups p))). rewrite (concat_groups_length _ H2), H1.
+  split; [reflexivity|]. split; [|exact H2]. exists (Z.of_nat (length (pa_groups p))). lia.
+Qed.
+
+(* C04_sync, per call and over the whole output of a run *)
+Theorem sync_blocks s ops :
+  Forall (fun o => forall k, (k < length (mo_groups o))%nat -> nth (188 * k) (mout_bytes o) 0 = syncByte) (snd (mux_run s ops)).
+Proof.
+  eapply Forall_impl; [|apply aligned]. cbn beta. intros o (_ & _ & H) k Hk. apply blocks_sync; assumption.
+Qed.
+
+Theorem sync_blocks_run s ops :
+  let gs := concat (map mo_groups (snd (mux_run s ops))) in
+  Z.of_nat (length (concat (concat gs))) = C_MpegTsPacketSize * Z.of_nat (length gs) /\
+  forall k, (k < length gs)%nat -> nth (188 * k) (concat (concat gs)) 0 = syncByte.
+Proof.
+  intros gs. assert (H : Forall group_ok gs).
+  { subst gs. pose proof (aligned s ops) as A. induction A as [|o l (_ & _ & Ho) _ IH]; [constructor|].
+    cbn [map concat]. apply Forall_app. split; assumption. }
+  split; [apply concat_groups_length, H|]. intros k Hk. apply blocks_sync; assumption.
+Qed.
+
+(* rejected calls: exactly what the code does *)
+Lemma write_tables_rejected s s2 pt : write_tables s = (s2, pt) -> pa_res pt <> Ok tt -> pa_groups pt = [] /\ pa_n pt = 0.
+Proof.
+  unfold write_tables, generate_pat, generate_pmt.
+  destruct (next_version (ms_pat_version s) (ms_pm_updated s)) as [patv pver].
+  destruct (write_psi_data (psi_of_section (pat_section pver))) as [ppay|c|]; try (intros H; pinj H; split; reflexivity).
+  destruct (write_packet (table_packet C_PIDPAT (wrappingCounter_inc (ms_pat_cc s)) ppay) C_MpegTsPacketSize) as [bpat|c|];
+    try (intros H; pinj H; split; reflexivity).
+  match goal with |- context [if negb ?b then _ else _] => destruct (negb b) end; try (intros H; pinj H; split; reflexivity).
+  match goal with |- context [if ?a >? ?b then _ else _] => destruct (a >? b) end; try (intros H; pinj H; split; reflexivity).
+  match goal with |- context [next_version ?a ?b] => destruct (next_version a b) as [pmtv mver] end.
+  match goal with |- context [write_psi_data ?a] => destruct (write_psi_data a) as [mpay|c|] end; try (intros H; pinj H; split; reflexivity).
+  match goal with |- context [write_packet ?a ?b] => destruct (write_packet a b) as [bpmt|c|] end; try (intros H; pinj H; split; reflexivity).
+  intros H; pinj H. cbn [pa_res]. congruence.
+Qed.
+
+Lemma retransmit_rejected s f sr pt : retransmit_tables s f = (sr, pt) -> pa_res pt <> Ok tt -> pa_groups pt = [] /\ pa_n pt = 0.
+Proof.
+  unfold retransmit_tables. destruct (negb f && _); [intros H; pinj H; cbn; congruence|].
+  destruct (write_tables _) as [s2 pt'] eqn:Ewt. destruct pt' as [rt nt gt pkt]. destruct rt as [u|c|].
+  - intros H; pinj H. cbn. congruence.
+  - intros H; pinj H. intros _. apply (write_tables_rejected _ _ _ Ewt). cbn. congruence.
+  - intros H; pinj H. intros _. apply (write_tables_rejected _ _ _ Ewt). cbn. congruence.
+Qed.
+
+Theorem rejected s o s' p : mux_step_part s o = (s', p) ->
+  match o with
+  | MAdd _ | MRemove _ | MSetPCR _ => pa_groups p = [] /\ pa_n p = 0
+  | MWriteTables | MWritePacket _ => pa_res p <> Ok tt -> pa_groups p = [] /\ pa_n p = 0
+  | MWriteData d =>
+      (es_find (MuxerData_PID d) (ms_es s) = None -> pa_res p = Err E_pid_not_found /\ pa_groups p = [] /\ pa_n p = 0 /\ s' = s) /\
+      (forall sr pt, retransmit_tables s (data_forced s d) = (sr, pt) -> pa_res pt <> Ok tt ->
+         es_find (MuxerData_PID d) (ms_es s) <> None -> p = pt /\ pa_groups p = [] /\ pa_n p = 0)
+  end.
+Proof.
+  intros Hstep. destruct o as [es|q|q| |d|pk]; cbn [mux_step_part] in Hstep.
+  - destruct (add_es s es). pinj Hstep. split; reflexivity.
+  - destruct (remove_es s q). pinj Hstep. split; reflexivity.
+  - pinj Hstep. split; reflexivity.
+  - apply (write_tables_rejected _ _ _ Hstep).
+  - unfold write_data in Hstep. split.
+    + intros Hnone. rewrite Hnone in Hstep. pinj Hstep. repeat split; reflexivity.
+    + intros sr pt Hrt Hne Hsome. destruct (es_find _ _) as [ctx|]; [|congruence].
+      change (af_rai (MuxerData_AdaptationField d) && (MuxerData_PID d =? ms_pcr_pid s)) with (data_forced s d) in Hstep.
+      rewrite Hrt in Hstep. destruct (retransmit_rejected _ _ _ _ Hrt Hne) as [G1 G2].
+      destruct pt as [rt nt gt pkt]. destruct rt as [u|c|].
+      * destruct u. cbn in Hne. congruence.
+      * pinj Hstep. repeat split; assumption.
+      * pinj Hstep. repeat split; assumption.
+  - pinj Hstep. intros Hne. unfold write_packet_op in *. destruct (po_res (emit_packet pk)); cbn in *; [congruence|split; reflexivity|split; reflexivity].
+Qed.
+
+(* ================= Part 6: the ghost packets and the bytes ================= *)
+
+(* the four header bytes of a serialised packet, read back: sync byte, PID (13 bits), payload_unit_start_indicator,
+   adaptation_field_control, continuity_counter (4 bits) *)
+Lemma b2z_01 b : 0 <= Z.b2z b <= 1. Proof. destruct b; cbn; lia. Qed.
+
+Lemma header_bytes h rest :
+  exists b1 b2 b3,
+    bytes_of_items ([wu8 syncByte] ++ enc_packet_header h ++ rest) = syncByte :: b1 :: b2 :: b3 :: bytes_of_items rest /\
+    (b1 mod 32) * 256 + b2 = PacketHeader_PID h mod 8192 /\
+    (b1 / 64) mod 2 = Z.b2z (PacketHeader_PayloadUnitStartIndicator h) /\
+    (b3 / 32) mod 2 = Z.b2z (PacketHeader_HasAdaptationField h) /\
+    (b3 / 16) mod 2 = Z.b2z (PacketHeader_HasPayload h) /\
+    b3 mod 16 = PacketHeader_ContinuityCounter h mod 16.
+Proof.
+  rewrite app_assoc. rewrite (bytes_of_items_app ([wu8 syncByte] ++ enc_packet_header h) rest 4)
+    by (rewrite ibz_app, enc_packet_header_bits; reflexivity).
+  rewrite chunks_concat by (unfold enc_packet_header, wu8; repeat constructor).
+  unfold enc_packet_header, wu8, syncByte.
+  cbn [app items_bits flat_map item_bits].
+  set (pid := PacketHeader_PID h). set (cc := PacketHeader_ContinuityCounter h). set (tsc := PacketHeader_TransportScramblingControl h).
+  cbn [bits_of Z.of_nat Pos.of_succ_nat Pos.succ app].
+  cbn [bytes_of_bits].
+  pose proof (Z_of_bits_of_mod 13 pid) as Hpid. pose proof (Z_of_bits_of_mod 4 cc) as Hcc.
+  cbn [bits_of Z.of_nat Pos.of_succ_nat Pos.succ] in Hpid, Hcc.
+  unfold Z_of_bits in *. cbn [Z_of_bits_acc] in *.
+  change (2 ^ Z.of_nat 13) with 8192 in Hpid. change (2 ^ Z.of_nat 4) with 16 in Hcc.
+  eexists _, _, _. split; [reflexivity|].
+  repeat match goal with |- context [Z.b2z ?b] => let H := fresh "Hb" in pose proof (b2z_01 b) as H; generalize dependent (Z.b2z b); intros end.
+  Ltac Zify.zify_post_hook ::= Z.div_mod_to_equations.
+  repeat split; lia.
+Qed.
+
+Lemma enc_packet_shape p target its : enc_packet p target = Ok its ->
+  exists rest, its = [wu8 syncByte] ++ enc_packet_header (Packet_Header p) ++ rest.
+Proof.
+  unfold enc_packet. intros H.
+  destruct (PacketHeader_HasAdaptationField (Packet_Header p)).
+  - destruct (Packet_AdaptationField p) as [af|]; cbn [need res_bind] in H; [|discriminate].
+    destruct (PacketAdaptationField_StuffingLength af <? 0); cbn [res_bind] in H; [discriminate|].
+    destruct (_ <? _) in H; [discriminate|].
+    destruct (enc_adaptation_field af) as [[afi afn]| |]; cbn [res_bind] in H; try discriminate.
+    destruct (_ <? _) in H; [discriminate|]. okinj H. eexists; reflexivity.
+  - cbn [res_bind] in H. destruct (_ <? _) in H; [discriminate|]. cbn [res_bind] in H.
+    destruct (_ <? _) in H; [discriminate|]. okinj H. eexists; reflexivity.
+Qed.
+
+(* every packet the model emits: its first four bytes are the sync byte and the header fields of the Packet record
+   (PID in 13 bits, continuity_counter in 4 bits) *)
+Theorem packet_header_readback p target its : enc_packet p target = Ok its ->
+  exists b1 b2 b3 tail,
+    bytes_of_items its = syncByte :: b1 :: b2 :: b3 :: tail /\
+    (b1 mod 32) * 256 + b2 = pkt_pid p mod 8192 /\
+    (b1 / 64) mod 2 = Z.b2z (PacketHeader_PayloadUnitStartIndicator (Packet_Header p)) /\
+    (b3 / 16) mod 2 = Z.b2z (pkt_has_payload p) /\
+    b3 mod 16 = pkt_cc p.
+Proof.
+  intros H. destruct (enc_packet_shape _ _ _ H) as [rest ->].
+  destruct (header_bytes (Packet_Header p) rest) as (b1 & b2 & b3 & E & H1 & H2 & _ & H4 & H5).
+  exists b1, b2, b3, (bytes_of_items rest). repeat split; assumption.
+Qed.
+
+(* ... and the groups a call hands to the writer are the serialisations of its ghost packets, in order *)
+Definition pkt_bytes (p : Packet) : list Z :=
+  match enc_packet p C_MpegTsPacketSize with Ok its => bytes_of_items its | _ => [] end.
+
+Definition part_tied (p : part) : Prop :=
+  map (@concat Z) (pa_groups p) = map pkt_bytes (pa_pkts p) /\
+  Forall (fun q => exists its, enc_packet q C_MpegTsPacketSize = Ok its) (pa_pkts p).
+
+Lemma part_tied_nil r n : part_tied (mk_part r n [] []).
+Proof. split; [reflexivity|constructor]. Qed.
+
+Lemma part_tied_app a b : part_tied a -> part_tied b -> part_tied (part_app a b).
+Proof.
+  intros [A1 A2] [B1 B2]. split; cbn [part_app pa_groups pa_pkts].
+  - rewrite !map_app, A1, B1. reflexivity.
+  - apply Forall_app. split; assumption.
+Qed.
+
+Lemma emit_packet_tied p : match po_res (emit_packet p) with
+                           | Ok _ => po_pkt (emit_packet p) = [p] /\ concat (po_group (emit_packet p)) = pkt_bytes p /\
+                                     exists its, enc_packet p C_MpegTsPacketSize = Ok its
+                           | _ => po_pkt (emit_packet p) = [] /\ po_group (emit_packet p) = []
+                           end.
+Proof.
+  unfold emit_packet, pkt_bytes. destruct (enc_packet p C_MpegTsPacketSize) as [its|c|] eqn:E; cbn [po_res po_group po_pkt];
+    try (split; reflexivity).
+  split; [reflexivity|]. split; [reflexivity|]. exists its. reflexivity.
+Qed.
+
+Lemma write_packet_tied p bs : write_packet p C_MpegTsPacketSize = Ok bs ->
+  bs = pkt_bytes p /\ exists its, enc_packet p C_MpegTsPacketSize = Ok its.
+Proof.
+  unfold write_packet, pkt_bytes. destruct (enc_packet p C_MpegTsPacketSize) as [its|c|]; cbn [res_map]; try discriminate.
+  intros H. apply ok_inj in H. subst. split; [reflexivity|]. exists its. reflexivity.
+Qed.
+
+Lemma write_tables_tied s : part_tied (snd (write_tables s)).
+Proof.
+  unfold write_tables, generate_pat, generate_pmt.
+  destruct (next_version (ms_pat_version s) (ms_pm_updated s)) as [patv pver].
+  destruct (write_psi_data (psi_of_section (pat_section pver))) as [ppay|c|]; cbn [snd]; try apply part_tied_nil.
+  destruct (write_packet _ _) as [bpat|c|] eqn:Ewp; cbn [snd]; try apply part_tied_nil.
+  destruct (negb _); cbn [snd]; try apply part_tied_nil.
+  destruct (_ >? _); cbn [snd]; try apply part_tied_nil.
+  destruct (next_version _ _) as [pmtv mver].
+  destruct (write_psi_data _) as [mpay|c|]; cbn [snd]; try apply part_tied_nil.
+  destruct (write_packet (table_packet C_pmtStartPID _ _) _) as [bpmt|c|] eqn:Ewm; cbn [snd]; try apply part_tied_nil.
+  destruct (write_packet_tied _ _ Ewp) as [E1 X1]. destruct (write_packet_tied _ _ Ewm) as [E2 X2].
+  split; cbn [pa_groups pa_pkts map concat].
+  - rewrite !app_nil_r, E1, E2. reflexivity.
+  - constructor; [exact X1|constructor; [exact X2|constructor]].
+Qed.
+
+Lemma retransmit_tied s f : part_tied (snd (retransmit_tables s f)).
+Proof.
+  unfold retransmit_tables. destruct (negb f && _); cbn [snd]; [apply part_tied_nil|].
+  pose proof (write_tables_tied (set_retransmit s (ms_retransmit s + 1))) as W.
+  destruct (write_tables _) as [s2 pt]. cbn [snd] in *. destruct pt as [rt nt gt pkt]. destruct rt; cbn [snd]; exact W.
+Qed.
+
+Lemma wd_loop_tied fuel : forall pid h cc af ps left, part_tied (lo_part (wd_loop fuel pid h cc af ps left)).
+Proof.
+  induction fuel as [|fuel IH]; intros pid h cc af ps left; cbn [wd_loop].
+  - destruct left; apply part_tied_nil.
+  - destruct left as [|b0 left']; [apply part_tied_nil|].
+    destruct (ps && _).
+    + match goal with |- context [emit_packet ?p] => pose proof (emit_packet_tied p) as W; destruct (po_res (emit_packet p)) end;
+        try apply part_tied_nil.
+      destruct W as (Wp & Wg & Wx). cbn [lo_cons lo_part]. destruct (IH pid h cc None ps (b0 :: left')) as [I1 I2].
+      split; cbn [pa_groups pa_pkts map]; rewrite Wp; cbn [app map].
+      * rewrite Wg, I1. reflexivity.
+      * constructor; assumption.
+    + destruct (write_pes_data _ _ _ _) as [[[items ntot] npayload]|c|]; try apply part_tied_nil.
+      match goal with |- context [emit_packet ?p] => pose proof (emit_packet_tied p) as W; destruct (po_res (emit_packet p)) end;
+        try apply part_tied_nil.
+      destruct W as (Wp & Wg & Wx). cbn [lo_cons lo_part].
+      destruct (IH pid h (wrappingCounter_inc_st cc) None false (skipn (Z.to_nat npayload) (b0 :: left'))) as [I1 I2].
+      split; cbn [pa_groups pa_pkts map]; rewrite Wp; cbn [app map].
+      * rewrite Wg, I1. reflexivity.
+      * constructor; assumption.
+Qed.
+
+Lemma write_data_tied s d : part_tied (snd (write_data s d)).
+Proof.
+  unfold write_data. destruct (es_find _ _) as [ctx|]; cbn [snd]; [|apply part_tied_nil].
+  pose proof (retransmit_tied s (af_rai (MuxerData_AdaptationField d) && (MuxerData_PID d =? ms_pcr_pid s))) as W.
+  destruct (retransmit_tables _ _) as [s1 pt]. cbn [snd] in W. destruct pt as [rt nt gt pkt]. destruct rt as [u|c|]; cbn [snd]; try exact W.
+  destruct u.
+  destruct (MuxerData_PES d) as [pes|]; cbn [snd]; [|apply part_tied_app; [exact W|apply part_tied_nil]].
+  destruct (PESData_Data pes) as [|b0 data']; cbn [snd]; [exact W|].
+  destruct (PESData_Header pes) as [h0|]; cbn [snd]; [|apply part_tied_app; [exact W|apply part_tied_nil]].
+  apply part_tied_app; [exact W|apply wd_loop_tied].
+Qed.
+
+(* every call: what it hands to the writer, group by group, is the serialisation of its ghost packets *)
+Theorem step_part_tied s o : part_tied (snd (mux_step_part s o)).
+Proof.
+  destruct o as [es|q|q| |d|pk]; cbn [mux_step_part].
+  - destruct (add_es s es). apply part_tied_nil.
+  - destruct (remove_es s q). apply part_tied_nil.
+  - apply part_tied_nil.
+  - apply write_tables_tied.
+  - apply write_data_tied.
+  - cbn [snd]. unfold write_packet_op. pose proof (emit_packet_tied pk) as W. destruct (po_res (emit_packet pk)); try apply part_tied_nil.
+    destruct W as (Wp & Wg & Wx). split; cbn [pa_groups pa_pkts map]; rewrite Wp; cbn [map].
+    + rewrite Wg. reflexivity.
+    + constructor; [exact Wx|constructor].
 Qed.
